@@ -3,11 +3,13 @@
 # (scratch worktree + VERIF_REPO; /repo is left alone).  Prints one line per seeded change: DETECTED / MISSED.
 OUT="${1:-/tmp/seeded_results.txt}"; : > "$OUT"
 cd /verif || exit 2
-for d in seeded/*/; do
+for d in ${SEEDED:-seeded/*/}; do
   id=$(basename "$d"); prop=$(python3 -c "import json;print(json.load(open('$d/meta.json'))['property'])")
   r=$(tools/try_mutant_wt.sh "$d/patch.diff" "$prop" 2>&1)
   n=$(echo "$r" | grep -c "^VIOLATION")
   ni=$(echo "$r" | grep "^VIOLATION" | grep -vc "no-failing-input-found")
-  if [ "$n" -gt 0 ]; then echo "DETECTED $id ($prop): $n violation line(s), $ni with a concrete input" >> "$OUT"; else echo "MISSED   $id ($prop)" >> "$OUT"; fi
+  if [ "$n" -gt 0 ]; then echo "DETECTED $id ($prop): $n violation line(s), $ni with a concrete input" >> "$OUT";
+  elif echo "$r" | grep -q "tier=quick"; then echo "MISSED   $id ($prop)" >> "$OUT";
+  else echo "ERROR    $id ($prop): the check did not finish (harness error / timeout)" >> "$OUT"; fi
 done
 cat "$OUT"
